@@ -701,10 +701,47 @@ func withHashesB64(root *cell.Cell, everyCell, crc bool, forge *[32]byte) (strin
 		}
 		copy(raw[k:], forge[:])
 		if crc {
-			binary.LittleEndian.PutUint32(raw[len(raw)-4:], crc32.Checksum(raw[:len(raw)-4], crc32.MakeTable(crc32.Castagnoli)))
+			binary.LittleEndian.PutUint32(raw[len(raw)-4:], crc32.Checksum(raw[:len(raw)-4], castagnoli))
 		}
 	}
 	return base64.StdEncoding.EncodeToString(raw), nil
+}
+
+var castagnoli = crc32.MakeTable(crc32.Castagnoli)
+
+// emptyBag is the generic bag of cells with 0 cells and 0 roots (size 1, offset size 1), optionally with its CRC.
+func emptyBag(crc bool) []byte {
+	b := []byte{0xb5, 0xee, 0x9c, 0x72, 0x01, 0x01, 0x00, 0x00, 0x00, 0x00}
+	if crc {
+		b[4] |= 0x40
+		b = binary.LittleEndian.AppendUint32(b, crc32.Checksum(b, castagnoli))
+	}
+	return b
+}
+
+// withoutRoots takes a generic bag written by the reference writer (CRC, no index) and declares 0 roots:
+// the root list is removed, the cells stay.
+func withoutRoots(raw []byte, crc bool) []byte {
+	if len(raw) < 12 || raw[4]&0x80 != 0 || raw[4]&0x40 == 0 {
+		panic("withoutRoots: expected a generic bag with crc and without index")
+	}
+	size, off := int(raw[4]&7), int(raw[5])
+	roots := 0
+	for _, x := range raw[6+size : 6+2*size] {
+		roots = roots<<8 | int(x)
+	}
+	listAt := 6 + 3*size + off
+	out := append([]byte(nil), raw[:listAt]...)
+	out = append(out, raw[listAt+roots*size:len(raw)-4]...)
+	for i := 6 + size; i < 6+2*size; i++ {
+		out[i] = 0
+	}
+	if crc {
+		out = binary.LittleEndian.AppendUint32(out, crc32.Checksum(out, castagnoli))
+	} else {
+		out[4] &^= 0x40
+	}
+	return out
 }
 
 func readB64(s string) ([]*cell.Cell, []*cell.Cell, *rboc.Header, error) {
@@ -842,6 +879,13 @@ func runMalformed(e env, idx int, rngOf func(label string, i int) *mon.Rng) {
 		{"state-init-two-roots", bocB64(rsi[0], noCode), nil},
 		{"state-init-two-roots", bocB64(noCode, rsi[0]), hashOf(noCode)},
 		{"state-init-two-equal-roots", bocB64(rsi[0], rsi[0]), nil},
+		{"state-init-three-roots", bocB64(rsi[0], noCode, noData), nil},
+		// bags that are well-formed but have no root at all: no cells, or this wallet's cells without the root list
+		{"state-init-zero-roots/no-cells", base64.StdEncoding.EncodeToString(emptyBag(false)), nil},
+		{"state-init-zero-roots/no-cells", base64.StdEncoding.EncodeToString(emptyBag(true)), nil},
+		{"state-init-zero-roots/with-cells", base64.StdEncoding.EncodeToString(withoutRoots(raw, false)), nil},
+		{"state-init-zero-roots/with-cells", base64.StdEncoding.EncodeToString(withoutRoots(raw, true)), nil},
+		{"state-init-zero-roots/one-empty-cell", base64.StdEncoding.EncodeToString([]byte{0xb5, 0xee, 0x9c, 0x72, 0x01, 0x01, 0x01, 0x00, 0x00, 0x02, 0x00, 0x00}), nil},
 		{"state-init-random-bytes", base64.StdEncoding.EncodeToString(rng.Bytes(rng.Range(1, 200))), nil},
 		{"state-init-not-base64", "%%%" + w.siB64, nil},
 		{"state-init-base64url", base64.URLEncoding.EncodeToString(append([]byte{0xfb, 0xef}, raw...)), nil},
@@ -902,6 +946,9 @@ func runMalformed(e env, idx int, rngOf func(label string, i int) *mon.Rng) {
 		e.sink.Eval("parse/" + c.tag)
 		if pp != nil {
 			e.sink.Violation("panic@"+pp.Site+"/ParseStateInit/"+c.tag, map[string]any{"state_init": mon.Trunc(c.si, 1500), "panic": pp.Value})
+		} else if perr == nil && (strings.HasPrefix(c.tag, "state-init-zero-roots") || strings.Contains(c.tag, "-roots")) {
+			// a bag with no root or with several roots is not a state-init: an error, never a key
+			e.sink.Violation("no-error@ParseStateInit/"+c.tag, map[string]any{"state_init": mon.Trunc(c.si, 1500), "returned_key": mon.Hex(k)})
 		} else if perr == nil && len(k) != ed25519.PublicKeySize {
 			e.sink.Seen("observed", fmt.Sprintf("ParseStateInit returns a %d-byte key and a nil error for %s", len(k), c.tag))
 		}
